@@ -78,10 +78,11 @@ def outcome_of(U, jsonschema, call):
     sys.stdout = io.StringIO()          # athlib prints the jsonschema error text
     try:
         try:
+            positional = (len(a) + len(b)) % 2 == 1          # half of the calls give every argument positionally, in the documented order
             if fn == 'sv':
-                r = U.schema_valid(a, validator=getattr(jsonschema, b), expect_failure=ef)
+                r = U.schema_valid(a, getattr(jsonschema, b), ef) if positional else U.schema_valid(a, validator=getattr(jsonschema, b), expect_failure=ef)
             else:
-                r = U.valid_against_schema(a, b, expect_failure=ef)
+                r = U.valid_against_schema(a, b, ef) if positional else U.valid_against_schema(a, b, expect_failure=ef)
             return repr(r)
         except Exception as e:
             return type(e).__name__
